@@ -1,5 +1,211 @@
-use crate::util::{Args, Report};
-pub fn run(_a: &Args, _r: &mut Report) {
-    eprintln!("not implemented yet");
-    std::process::exit(2);
+//! C15 — FLARM decoding: totality, ranges, and inversion of an independent packer/encryptor.
+use crate::oracle::xxtea::{self, Fields};
+use crate::util::{fnv, guarded, hexs, msg_class, short_loc, Args, Report, Rng};
+use rs1090::decode::flarm::Flarm;
+use serde_json::json;
+
+fn reference(rng: &mut Rng) -> [f64; 2] {
+    let one = |rng: &mut Rng, lim: f64| match rng.below(14) {
+        0 => f64::NAN,
+        1 => f64::INFINITY,
+        2 => f64::NEG_INFINITY,
+        3 => 1e300,
+        4 => -1e300,
+        5 => 0.0,
+        6 => -0.0,
+        7 => lim,
+        8 => -lim,
+        9 => 214.7483647,
+        10 => -214.7483648,
+        _ => rng.uni(-lim, lim),
+    };
+    [one(rng, 90.0), one(rng, 180.0)]
+}
+
+fn judge_record(r: &mut Report, f: &Flarm, rp: &serde_json::Value, origin: &str) -> bool {
+    let mut ok = true;
+    let nums: [(&str, f64); 6] = [("latitude", f.latitude), ("longitude", f.longitude), ("vertical_speed", f.vertical_speed), ("groundspeed", f.groundspeed), ("track", f.track), ("geoaltitude", f.geoaltitude as f64)];
+    for (k, x) in nums {
+        if !x.is_finite() {
+            ok = false;
+            r.violation(&format!("C15:non-finite:{k}"), format!("{origin}: {k} = {x}"), rp.clone());
+        }
+    }
+    if f.track.is_finite() && !(f.track >= 0.0 && f.track < 360.0) {
+        ok = false;
+        r.violation("C15:track-range", format!("{origin}: track = {} outside [0, 360)", f.track), rp.clone());
+    }
+    if f.groundspeed < 0.0 {
+        ok = false;
+        r.violation("C15:groundspeed-negative", format!("{origin}: groundspeed = {}", f.groundspeed), rp.clone());
+    }
+    // the JSON the user sees must not hide anything either
+    if let Ok(v) = crate::oracle::recorder::record(f) {
+        let fl = crate::oracle::recorder::flatten(&v);
+        let bad: Vec<_> = fl.nonfinite.iter().filter(|s| !s.contains("reference_")).collect();
+        if !bad.is_empty() {
+            ok = false;
+            r.violation("C15:non-finite:json", format!("{origin}: {:?}", bad), rp.clone());
+        }
+    }
+    ok
+}
+
+fn random_packet(r: &mut Report, rng: &mut Rng) {
+    let len = rng.below(41) as usize;
+    let mut p = rng.bytes(len);
+    if len > 3 && rng.chance(0.7) {
+        p[3] = if rng.chance(0.5) { 0x10 } else { 0x20 };
+    }
+    let ts = match rng.below(6) {
+        0 => 0,
+        1 => u32::MAX,
+        2 => 1 << 23,
+        _ => rng.next() as u32,
+    };
+    let rf = reference(rng);
+    r.evaluations += 1;
+    let rp = json!({"kind":"random","packet":hexs(&p),"ts":ts,"ref":[format!("{}",rf[0]),format!("{}",rf[1])]});
+    match guarded(|| Flarm::from_record(ts, &rf, &p)) {
+        Err((loc, msg)) => r.violation(&format!("C15:panic:{}", short_loc(&loc)), format!("from_record({ts}, {:?}, {}) panicked: {}", rf, hexs(&p), msg_class(&msg)), rp),
+        Ok(Err(_)) => r.class(if len < 26 { "random:error(short)" } else { "random:error" }),
+        Ok(Ok(f)) => {
+            if judge_record(r, &f, &rp, "random packet") {
+                r.class(if xxtea::key_table_b(ts) { "random:record(key table B)" } else { "random:record(key table A)" });
+                r.distinct(fnv(&p) ^ ts as u64);
+            }
+        }
+    }
+}
+
+fn built_packet(r: &mut Report, rng: &mut Rng) {
+    // reference anywhere on the globe, truth inside the decodable window (numeric, no wrap across +-180)
+    let rlat = if rng.chance(0.1) { *rng.pick(&[0.0, 89.9, -89.9, 45.0]) } else { rng.uni(-90.0, 90.0) };
+    let rlon = if rng.chance(0.1) { *rng.pick(&[0.0, 179.9, -179.9, 5.1]) } else { rng.uni(-180.0, 180.0) };
+    let frac = |rng: &mut Rng| match rng.below(4) {
+        0 => rng.uni(0.97, 1.0) * if rng.chance(0.5) { 1.0 } else { -1.0 },
+        1 => rng.uni(-0.001, 0.001),
+        _ => rng.uni(-1.0, 1.0),
+    };
+    let lat = rlat + 3.3 * frac(rng);
+    let lon = rlon + 6.7 * frac(rng);
+    if !(-90.0..=90.0).contains(&lat) || !(-180.0..=180.0).contains(&lon) {
+        r.class("built:skipped(truth outside the globe's numeric range)");
+        return;
+    }
+    let f = Fields {
+        address: rng.biased(24) as u32,
+        is_icao: rng.chance(0.5),
+        vs: rng.biased(10) as u32,
+        stealth: rng.chance(0.5),
+        no_track: rng.chance(0.5),
+        gps: rng.biased(12) as u32,
+        actype: rng.below(16) as u32,
+        lat,
+        lon,
+        alt: rng.biased(13) as u32,
+        mult: rng.below(4) as u32,
+        ns: [rng.next() as i8, rng.next() as i8, rng.next() as i8, rng.next() as i8],
+        ew: [rng.next() as i8, rng.next() as i8, rng.next() as i8, rng.next() as i8],
+        w0_spare: rng.below(16) as u32,
+        w2_spare: rng.below(1024) as u32,
+    };
+    let ts = match rng.below(8) {
+        0 => 0,
+        1 => u32::MAX,
+        2 => (1 << 23) - 1,
+        3 => 1 << 23,
+        _ => rng.next() as u32,
+    };
+    let p = xxtea::packet(&f, ts, [rng.next() as u8, rng.next() as u8]);
+    r.evaluations += 1;
+    let rp = json!({"kind":"built","packet":hexs(&p),"ts":ts,"ref":[format!("{rlat}"),format!("{rlon}")],"truth":{"lat":lat,"lon":lon,"alt":f.alt,"type":f.actype,"addr":f.address,"stealth":f.stealth,"no_track":f.no_track}});
+    match guarded(|| Flarm::from_record(ts, &[rlat, rlon], &p)) {
+        Err((loc, msg)) => r.violation(&format!("C15:panic:{}", short_loc(&loc)), format!("from_record on a well-formed packet panicked: {}", msg_class(&msg)), rp),
+        Ok(Err(e)) => r.violation("C15:built:error", format!("well-formed packet rejected: {e}"), rp),
+        Ok(Ok(d)) => {
+            let mut ok = judge_record(r, &d, &rp, "built packet");
+            let js = serde_json::to_value(&d).unwrap_or_default();
+            let mut bad = vec![];
+            if js["icao24"].as_str() != Some(format!("{:06x}", f.address).as_str()) {
+                bad.push(format!("address {:?} != {:06x}", js["icao24"], f.address));
+            }
+            if d.is_icao24 != f.is_icao {
+                bad.push("address-type flag".into());
+            }
+            let type_names = ["Unknown", "Glider", "Towplane", "Helicopter", "Parachute", "DropPlane", "Hangglider", "Paraglider", "Aircraft", "Jet", "UFO", "Balloon", "Airship", "UAV", "Reserved", "StaticObstacle"];
+            if format!("{:?}", d.actype) != type_names[f.actype as usize] {
+                bad.push(format!("type {:?} != {}", d.actype, type_names[f.actype as usize]));
+            }
+            if d.stealth != f.stealth {
+                bad.push("stealth flag".into());
+            }
+            if d.no_track != f.no_track {
+                bad.push("no-track flag".into());
+            }
+            if d.geoaltitude != f.alt {
+                bad.push(format!("altitude {} != {}", d.geoaltitude, f.alt));
+            }
+            if d.gps != f.gps {
+                bad.push(format!("gps {} != {}", d.gps, f.gps));
+            }
+            let step = 128e-7;
+            if (d.latitude - lat).abs() > step {
+                bad.push(format!("latitude {} vs {} (off by {:.3} steps)", d.latitude, lat, (d.latitude - lat).abs() / step));
+            }
+            if (d.longitude - lon).abs() > step {
+                bad.push(format!("longitude {} vs {} (off by {:.3} steps)", d.longitude, lon, (d.longitude - lon).abs() / step));
+            }
+            if !bad.is_empty() {
+                ok = false;
+                let kind = if bad.iter().any(|b| b.starts_with("lat") || b.starts_with("lon")) { "position" } else { "fields" };
+                r.violation(&format!("C15:built:{kind}"), format!("packet from {:06x} at ts={ts} with reference ({rlat},{rlon}): {}", f.address, bad.join("; ")), rp);
+            }
+            if ok {
+                r.class(if xxtea::key_table_b(ts) { "built:ok(key table B)" } else { "built:ok(key table A)" });
+                r.distinct(fnv(&p));
+                r.max("position_error_steps", ((d.latitude - lat).abs().max((d.longitude - lon).abs())) / step);
+                if r.samples.len() < 3 {
+                    r.sample(json!({"packet": hexs(&p), "ts": ts, "reference": [rlat, rlon], "truth": [lat, lon], "decoded": [d.latitude, d.longitude]}));
+                }
+            }
+        }
+    }
+}
+
+pub fn run(a: &Args, r: &mut Report) {
+    r.rule = "random: byte strings of length 0..40 (magic byte forced valid 70 %), timestamps incl. 0 / 2^23 / u32::MAX, references incl. NaN, +-inf, +-1e300, +-0, poles, i32 limits -> no panic, numbers finite, track in [0,360); built: field tuples packed and XXTEA-encrypted by the independent implementation, truth within +-3.3 / +-6.7 deg of a reference anywhere on the globe -> address, type, flags, altitude, gps equal, position within one 128e-7 deg step. distinct = distinct (packet, timestamp) with a correct verdict".into();
+    r.assumptions.push("reference_lat/reference_lon of a record echo the caller's input and are not 'numbers of the record'".into());
+    r.assumptions.push("the decodable window is numeric (truth = reference + delta without wrapping across +-180 deg)".into());
+    if let Some(p) = &a.replay {
+        let v: serde_json::Value = serde_json::from_str(&std::fs::read_to_string(p).unwrap()).unwrap();
+        let rp = &v["replay"];
+        let pk = hex::decode(rp["packet"].as_str().unwrap()).unwrap();
+        let ts = rp["ts"].as_u64().unwrap() as u32;
+        let rf = [rp["ref"][0].as_str().unwrap().parse::<f64>().unwrap(), rp["ref"][1].as_str().unwrap().parse::<f64>().unwrap()];
+        r.evaluations += 1;
+        match guarded(|| Flarm::from_record(ts, &rf, &pk)) {
+            Err((loc, msg)) => r.violation(&format!("C15:panic:{}", short_loc(&loc)), msg, rp.clone()),
+            Ok(Ok(f)) => {
+                judge_record(r, &f, rp, "replay");
+                r.extra.insert("replay_record".into(), serde_json::to_value(&f).unwrap_or_default());
+            }
+            Ok(Err(e)) => {
+                r.extra.insert("replay_error".into(), json!(e.to_string()));
+            }
+        }
+        return;
+    }
+    let mut rng = Rng::new(a.seed, a.shard, "C15");
+    let n = a.budget(2_000_000, 200_000_000);
+    for i in 0..n {
+        if i % 2 == 0 {
+            random_packet(r, &mut rng);
+        } else {
+            built_packet(r, &mut rng);
+        }
+    }
+    if !a.asan {
+        r.extra.insert("mandatory".into(), json!(["built:ok(key table A)", "built:ok(key table B)", "random:record(key table A)", "random:record(key table B)", "random:error(short)"]));
+    }
 }
